@@ -99,7 +99,7 @@ if os.environ.get('MODELTEST_SYMBOLIC', '1') == '1':
         except Exception as e:
             signal.alarm(0)
             sym_bad += 1
-            print('%s: symbolic: internal error %r' % (n, e))
+            import traceback; traceback.print_exc(); print('%s: symbolic: internal error %r' % (n, e))
             continue
         if r is None:
             sym_unsup += 1
